@@ -65,6 +65,9 @@ func pickN(r *simrt.Rng, pool []string, n int) []string {
 
 func noteText(r *simrt.Rng, n int) string {
 	if r.Chance(0.5) {
+		if r.Chance(0.1) {
+			return fmt.Sprintf("%03d", n) // decimal, however many leading zeros
+		}
 		return fmt.Sprint(n)
 	}
 	s := model.NoteName(n)
@@ -109,6 +112,7 @@ type genOpts struct {
 	analogSubs          bool     // spread the axes over the sub-handlers (one analog section each)
 	edgeKeys            bool     // exit sequences may use keys at the edges of the key-code space
 	handlers            int
+	dupActions          int // so many actions get a second key
 }
 
 // baseDesc draws a configuration description.
@@ -126,9 +130,13 @@ func baseDesc(r *simrt.Rng, o genOpts) *model.Desc {
 	nKeys := r.Range(o.nKeys[0], o.nKeys[1])
 	keyNames := pickN(r, noteKeyPool, nKeys)
 	// actions
-	actKeys := pickN(r, actionKeyPool, len(o.actions)+3)
+	actKeys := pickN(r, actionKeyPool, len(o.actions)+3+o.dupActions)
 	for i, a := range o.actions {
 		d.Actions = append(d.Actions, model.ActionKey{Name: actKeys[i], Code: keyCode(actKeys[i]), Action: a})
+	}
+	for i := 0; i < o.dupActions && len(o.actions) > 0; i++ {
+		n := actKeys[len(o.actions)+3+i]
+		d.Actions = append(d.Actions, model.ActionKey{Name: n, Code: keyCode(n), Action: o.actions[r.Intn(len(o.actions))]})
 	}
 	// exit sequence
 	if o.exitLen >= 0 {
@@ -181,8 +189,13 @@ func baseDesc(r *simrt.Rng, o genOpts) *model.Desc {
 		base[k] = a
 	}
 	axisNames := pickN(r, stickAxes, o.axes)
+	// mapping names that differ in letter case only are different names
+	caseNames := nMaps >= 2 && nMaps <= 3 && r.Chance(0.08)
 	for mi := 0; mi < nMaps; mi++ {
 		m := model.MappingDesc{Name: fmt.Sprintf("M%d", mi)}
+		if caseNames {
+			m.Name = []string{"piano", "Piano", "PIANO"}[mi]
+		}
 		subs := map[string]*model.SubKeys{}
 		for ki, k := range keyNames {
 			if mi > 0 && r.Chance(o.unmapProb) {
@@ -384,6 +397,7 @@ type scriptGen struct {
 	noteK   []model.KeyDesc
 	handler map[uint16]int
 	actDown map[string]bool
+	actCnt  map[string]int // keys held per action (an action may have two keys)
 	out     []model.Event
 	nOct    int // presses of octave / semitone actions so far (upper bound of the excursion)
 	nSemi   int
@@ -391,7 +405,7 @@ type scriptGen struct {
 }
 
 func newScriptGen(r *simrt.Rng, d *model.Desc) *scriptGen {
-	g := &scriptGen{r: r, d: d, down: map[uint16]bool{}, handler: map[uint16]int{}, actDown: map[string]bool{}}
+	g := &scriptGen{r: r, d: d, down: map[uint16]bool{}, handler: map[uint16]int{}, actDown: map[string]bool{}, actCnt: map[string]int{}}
 	g.axH = map[uint16]int{}
 	for _, m := range d.Mappings {
 		for _, sa := range m.Analog {
@@ -487,14 +501,25 @@ func (g *scriptGen) pressAction(ak model.ActionKey) bool {
 		}
 		g.nSemi++
 	}
+	// two keys of one action held and the other half of the pair pressed: the statement does not say what releasing
+	// one of the two then means
+	if p := partnerOf(ak.Action); p != "" && (g.actCnt[p] > 1 || (g.actCnt[p] > 0 && g.actCnt[ak.Action] > 0)) {
+		return false
+	}
 	g.key(ak.Code, 1)
 	g.actDown[ak.Action] = true
+	g.actCnt[ak.Action]++
 	return true
 }
 
 func (g *scriptGen) release(code uint16) {
 	if a := g.actionOf(code); a != "" {
-		delete(g.actDown, a)
+		if g.actCnt[a] > 0 {
+			g.actCnt[a]--
+		}
+		if g.actCnt[a] == 0 {
+			delete(g.actDown, a)
+		}
 	}
 	g.key(code, 0)
 }
